@@ -13,15 +13,16 @@
 (* of any deterministic application, Metadata included), and the current snapshot.         *)
 (* `cmds` is the committed log every node applies in order (Raft itself is assumed, C19).   *)
 (*                                                                                     *)
-(* SnapshotSource = "adapter_data": transcription of the code: build_snapshot serialises    *)
-(*    `data`; install_snapshot deserialises that map into `data`, re-serialises it and        *)
-(*    hands those bytes to the application's restore().                                    *)
-(* SnapshotSource = "app": what the property needs: the snapshot carries the application's    *)
-(*    own snapshot() and install hands it to restore().                                    *)
-(* RestoreOfMapBytes says what the application's restore() does with the bytes of an empty     *)
-(*    string map: "empty" (decodes to an empty state: KvStateMachine) or "error" (does not      *)
-(*    decode: Metadata, whose ClusterState needs two maps). On "error" the code has already       *)
-(*    replaced lastApplied / lastMembership / data and returns Err before storing the snapshot.   *)
+(* SnapshotSource = "app": the design as the code since /repo c0348bc: the snapshot carries the   *)
+(*    application's own snapshot(); install_snapshot first hands it to restore() and only then    *)
+(*    replaces lastApplied / lastMembership and stores the snapshot; a snapshot whose bytes do not   *)
+(*    decode (InstallCorruptSnapshot) fails and changes nothing.                              *)
+(* SnapshotSource = "adapter_data": MUTANT (the code before c0348bc): build_snapshot serialises     *)
+(*    `data`; install_snapshot deserialises that map into `data`, replaces lastApplied /           *)
+(*    lastMembership, re-serialises the map and hands those bytes to the application's restore().    *)
+(*    RestoreOfMapBytes says what restore() does with the bytes of an empty string map: "empty"      *)
+(*    (decodes to an empty state: KvStateMachine) or "error" (does not decode: Metadata). Kept as    *)
+(*    vacuity guards (MC_RaftSM_defect*.cfg, expected to be violated, thorough-tier self-test).      *)
 (***************************************************************************************)
 EXTENDS Naturals, Sequences, FiniteSets
 
@@ -92,16 +93,22 @@ InstallSnapshot(m, s) ==
      THEN /\ app' = [app EXCEPT ![m] = s.bytes.v]
           /\ data' = data
           /\ curSnap' = [curSnap EXCEPT ![m] = Some(s)]
-          /\ lastInstall' = Some([node |-> m, res |-> "ok", snap |-> s])
+          /\ lastInstall' = Some([node |-> m, res |-> "ok", snap |-> s, corrupt |-> FALSE])
      ELSE /\ data' = [data EXCEPT ![m] = s.bytes.v]
           /\ IF s.bytes.v = {} /\ RestoreOfMapBytes = "error"
              THEN /\ app' = app
                   /\ curSnap' = curSnap
-                  /\ lastInstall' = Some([node |-> m, res |-> "err", snap |-> s])
+                  /\ lastInstall' = Some([node |-> m, res |-> "err", snap |-> s, corrupt |-> FALSE])
              ELSE /\ app' = [app EXCEPT ![m] = <<>>]     \* restore(bytes of the map) = empty state
                   /\ curSnap' = [curSnap EXCEPT ![m] = Some(s)]
-                  /\ lastInstall' = Some([node |-> m, res |-> "ok", snap |-> s])
+                  /\ lastInstall' = Some([node |-> m, res |-> "ok", snap |-> s, corrupt |-> FALSE])
   /\ UNCHANGED cmds
+
+(* a snapshot damaged in transit: its bytes decode neither as the application's snapshot nor as    *)
+(* the adapter's map. Both variants decode first and fail before touching anything. *)
+InstallCorruptSnapshot(m, s) ==
+  /\ lastInstall' = Some([node |-> m, res |-> "err", snap |-> s, corrupt |-> TRUE])
+  /\ UNCHANGED <<cmds, lastApplied, lastMembership, data, app, curSnap>>
 
 GetCurrentSnapshot(n, s) == s = curSnap[n] /\ UNCHANGED svars
 
@@ -111,7 +118,8 @@ GetCurrentSnapshot(n, s) == s = curSnap[n] /\ UNCHANGED svars
 (* further applies (= stays equal under the same commands) *)
 InvConverged == \A n \in Nodes : app[n] = AppOf(SubSeq(cmds, 1, lastApplied[n]))
 (* installing a snapshot that a node of the same cluster built succeeds *)
-InvInstallSucceeds == lastInstall = None \/ lastInstall[1].res = "ok"
+InvInstallSucceeds ==
+  IF lastInstall = None THEN TRUE ELSE (lastInstall[1].res = "ok" \/ lastInstall[1].corrupt)
 (* the adapter's bookkeeping that openraft reads back *)
 InvMembership == \A n \in Nodes : lastMembership[n] = MemOf(SubSeq(cmds, 1, lastApplied[n]))
 =============================================================================
